@@ -46,7 +46,7 @@ code -> spec: a seeded random driver (deeper types, unions of 3, tuples of 4, al
 Forms that must not matter are varied by case index: NotRequired[...] in a total TypedDict / Required[...]
 in a total=False one / fields split over a base TypedDict and a subclass; the library's EmptyTuple /
 EmptyDict / Tuple[()] / an own empty TypedDict; SlotFunc / SlotFunc[SlotData]; render / render_to_response;
-empty inputs passed / omitted.
+empty inputs passed / omitted; the typed class itself / a subclass of it without own type parameters.
 
 Unspecified zones (both answers admitted): depth of generic checks; which offending item is named;
 a Slot instance where SlotFunc is declared; a function / Slot where SlotContent is declared.  Of the
@@ -199,7 +199,9 @@ def user_source(decl: Dict[str, Any], cls_name: str, variant: int) -> str:
             _typeddict_src("Slots", decl["slots"], variant) + _typeddict_src("Data", decl["data"], variant) +
             f"\nclass {cls_name}(Component[Args, Kwargs, Slots, Data, Any, Any]):\n"
             "    template = TEMPLATE\n"
-            "    get_context_data = _get_context_data\n")
+            "    get_context_data = _get_context_data\n"
+            f"\nclass {cls_name}Sub({cls_name}):      # a Button subclass is a Button\n"
+            "    pass\n")
 
 
 # what the component bodies share with the harness
@@ -246,7 +248,7 @@ def typed_class(decl: Dict[str, Any], variant: int):
     modname = f"vf_x02_user_{os.getpid()}_{_SERIAL[0]}"
     src = user_source(decl, name, variant)
     mod = _exec_user_module(src, modname)
-    _CLASSES[key] = (getattr(mod, name), src, modname)
+    _CLASSES[key] = ((getattr(mod, name), getattr(mod, name + "Sub")), src, modname)
     _CLASS_ORDER.append(key)
     if len(_CLASS_ORDER) > 48:
         old = _CLASS_ORDER.pop(0)
@@ -323,7 +325,8 @@ def named_items(msg: str) -> List[str]:
 
 
 def observe(decl: Dict[str, Any], call: Dict[str, Any], variant: int) -> Dict[str, Any]:
-    cls, _src, _mod = typed_class(decl, variant)
+    classes, _src, _mod = typed_class(decl, variant)
+    cls = classes[1 if variant & 64 else 0]
     try:
         out, seen = _render(cls, call, variant)
     except TypeError as e:
@@ -361,7 +364,7 @@ def describe(decl, call, variant) -> Dict[str, Any]:
             "python_call": {"args": repr(tuple(py_value(v) for v in call["args"])),
                      "kwargs": repr(_entries(call["kwargs"])), "slots": repr(_entries(call["slots"])),
                      "get_context_data_returns": repr(_entries(call["data"]))},
-            "via": "render_to_response" if variant & 4 else "render"}
+            "via": ("render_to_response" if variant & 4 else "render") + (" on TypedSub" if variant & 64 else "")}
 
 
 # ---------------------------------------------------------------- spec -> code
@@ -398,7 +401,9 @@ def _replay_job(job):
         for ri, line in enumerate(groups[g]):
             row = json.loads(line)
             # what must not matter: TypedDict style by declaration, the way of calling by case
-            variant = (zlib.crc32(g.encode()) % 4) | (((gi + ri) % 4) << 2) | ((gi % 4) << 4)
+            # (a function of the exported line only, not of how the lines are shared out to workers)
+            hg, hl = zlib.crc32(g.encode()), zlib.crc32(line.encode())
+            variant = (hg % 4) | ((hl % 4) << 2) | (((hg >> 8) % 4) << 4) | (64 if (hl >> 8) % 5 == 0 else 0)
             decl, call = row["decl"], row["call"]
             obs = observe(decl, call, variant)
             n += 1
@@ -410,7 +415,7 @@ def _replay_job(job):
             else:
                 stats["must_reject"] += 1
             stats["nontrivial"] += not all(decl[s]["any"] for s in ("args", "kwargs", "slots", "data"))
-            if len(samples) < 2 and (gi * 31 + ri) % 211 == 7:
+            if len(samples) < 2 and (hl >> 4) % 499 == 7:
                 samples.append({"family": row["fam"], **describe(decl, call, variant),
                                 "admits": {"render": row["ok"], "TypeError_naming": row["may"]},
                                 "observed": {k: obs[k] for k in ("o", "named", "same", "comp", "msg")}})
@@ -709,23 +714,30 @@ def random_case(rnd: random.Random, depth: int) -> Tuple[Dict[str, Any], Dict[st
 def normalise_unions(decl: Dict[str, Any]) -> None:
     """Within one module typing's subscription cache makes `List[Union[b, a]]` evaluate to an earlier
     `List[Union[a, b]]`: give every union whose set of alternatives occurred before (in evaluation
-    order) the order of its first occurrence, so that the source text means what it says."""
+    order) the order of its first occurrence, so that the source text means what it says; alternatives
+    that thereby become equal are merged (as typing would)."""
     first: Dict[str, List[Dict[str, Any]]] = {}
 
     def walk(t):
-        for x in t["a"]:
-            walk(x)
+        a = [walk(x) for x in t["a"]]
         if t["k"] == "union":
-            ident = canon(sorted(canon(x) for x in t["a"]))
-            if ident in first:
-                t["a"] = [json.loads(canon(x)) for x in first[ident]]
-            else:
-                first[ident] = t["a"]
-    for t in decl["args"]["m"]:
-        walk(t)
+            uniq: List[Dict[str, Any]] = []
+            for x in a:
+                if x not in uniq:
+                    uniq.append(x)
+            if len(uniq) == 1:
+                return uniq[0]
+            ident = canon(sorted(canon(x) for x in uniq))
+            uniq = first.setdefault(ident, uniq)
+            return {"k": "union", "a": json.loads(canon(uniq))}
+        if t["k"] == "opt" and (a[0]["k"] in ("opt", "none", "any") or
+                                (a[0]["k"] == "union" and any(x["k"] == "none" for x in a[0]["a"]))):
+            return a[0]
+        return {"k": t["k"], "a": a}
+    decl["args"]["m"] = [walk(t) for t in decl["args"]["m"]]
     for sec in ("kwargs", "slots", "data"):
         for f in decl[sec]["f"]:
-            walk(f["t"])
+            f["t"] = walk(f["t"])
 
 
 def _record_job(job):
@@ -737,7 +749,7 @@ def _record_job(job):
     for i in range(count):
         decl, call = random_case(rnd, depth)
         normalise_unions(decl)
-        variant = rnd.randrange(64)
+        variant = rnd.randrange(128)
         obs = observe(decl, call, variant)
         out.append({"id": first_id + i, "decl": decl, "call": call, "variant": variant,
                     "obs": {"o": obs["o"], "named": obs["named"], "same": obs["same"], "comp": obs["comp"]},
@@ -1028,6 +1040,13 @@ def selftest(tier: str) -> int:
          comp("_validate_inputs", [("validate_typed_dict(kwargs, kwargs_type,",
                                     "kwargs and validate_typed_dict(kwargs, kwargs_type,")])),
         ("component: types cached on the Component base class (first typed component wins)", shared_types),
+        ("component: a subclass of a typed component is not validated",
+         comp("_get_types", [("= self.__orig_bases__", "= self.__class__.__dict__.get('__orig_bases__', ())")])),
+        ("Optional[T] / Union checked against the first alternative only",
+         val("_prepare_type_for_validation",
+             [("        else:\n            return the_type\n",
+               "        else:\n            return the_type.__args__[0] if the_type.__origin__ is typing.Union "
+               "else the_type\n")])),
     ]
 
     def body(chk: Check) -> None:
